@@ -527,16 +527,23 @@ public:
             }
             throw abort_path{"ub:fptoui-negative"};
         }
-        for (std::size_t i = 0; i < g.conv_cap; ++i)
-        {
+        // floor by bisection over [0, cap): log2(cap) decisions (values >= cap are represented by cap)
+        auto below = [&](std::size_t i) {
 #ifdef SYM_FP
-            if (g.branch(e < num(static_cast<long double>(i + 1))))
+            return g.branch(e < num(static_cast<long double>(i)));
 #else
-            if (g.branch(e < g.ctx.real_val(static_cast<int>(i + 1))))
+            return g.branch(e < g.ctx.real_val(std::to_string(i).c_str()));
 #endif
+        };
+        if (below(g.conv_cap))
+        {
+            std::size_t lo = 0, hi = g.conv_cap;
+            while (hi - lo > 1)
             {
-                return i;
+                std::size_t const mid = lo + (hi - lo) / 2;
+                if (below(mid)) hi = mid; else lo = mid;
             }
+            return lo;
         }
 #ifdef SYM_FP
         if (g.branch(e >= num(18446744073709551616.0L)))
